@@ -4,6 +4,7 @@ import itertools
 from .. import core, bdd
 from ..core import Failure
 
+VARS5 = ('a', 'b', 'c', 'd', 'e')
 OPS = {'and': lambda x, y: x & y, 'or': lambda x, y: x | y, 'xor': lambda x, y: x ^ y}
 
 
@@ -46,7 +47,7 @@ def apply_op(op, x, y):
 def check_ops(inp):
     """inp: {'nv', 'order', 'f', 'g'}: all binary ops, negation, every restrict(v, b)."""
     nv = inp['nv']
-    variables = bdd.VARS4[:nv]
+    variables = VARS5[:nv]
     order = list(inp['order'])
     full = bdd.tt_full(nv)
     try:
@@ -95,7 +96,7 @@ def check_errors(inp):
     """Different orderings / variable outside the ordering -> RuntimeError; equal orderings fine."""
     OBDD, BDDNode = _lib()
     nv = inp['nv']
-    variables = bdd.VARS4[:nv]
+    variables = VARS5[:nv]
     o1 = list(inp['order'])
     o2 = list(inp['order2'])
     try:
@@ -148,7 +149,7 @@ def root_relation(of, og, order):
 
 def enum_shard(st, shard, nshards, payload):
     nv = payload['nv']
-    variables = bdd.VARS4[:nv]
+    variables = VARS5[:nv]
     nfun = 1 << (1 << nv)
     full = bdd.tt_full(nv)
     stride = payload.get('stride', 1)
@@ -251,25 +252,24 @@ def run(ctx):
 
 def random_shard(st, shard, nshards, payload):
     from hypothesis import strategies as hs
-    perms4 = list(itertools.permutations(bdd.VARS4))
-    case = hs.fixed_dictionaries({
-        'nv': hs.just(4),
-        'order': hs.sampled_from(perms4).map(list),
-        'order2': hs.sampled_from(perms4).map(list),
-        'f': hs.integers(0, 65535),
-        'g': hs.integers(0, 65535),
-        'dense': hs.booleans(),
-    })
+    @hs.composite
+    def case_s(draw):
+        nv = draw(hs.sampled_from([4, 4, 5]))
+        vs = list(VARS5[:nv])
+        top = (1 << (1 << nv)) - 1
+        return {'nv': nv, 'order': list(draw(hs.permutations(vs))), 'order2': list(draw(hs.permutations(vs))),
+                'f': draw(hs.integers(0, top)), 'g': draw(hs.integers(0, top)), 'dense': draw(hs.booleans())}
+    case = case_s()
 
     def body(inp):
         inp = dict(inp)
         if not inp.pop('dense'):
             # structured functions (few minterms or few maxterms) as well as dense ones
-            inp['f'] &= (inp['g'] >> 3) | 0x0F0F
-        full = bdd.tt_full(4)
+            inp['f'] &= (inp['g'] >> 3) | 0x0F0F0F0F
+        full = bdd.tt_full(inp['nv'])
         nt = all(OPS[o](inp['f'], inp['g']) not in (0, full) for o in OPS)
         st.random_case(inp, nt)
-        st.bump('random 4-variable cases')
+        st.bump('random %d-variable cases' % inp['nv'])
         if nt:
             st.sample(inp, cls='random-%s' % ''.join(inp['order'][:2]))
         fr = check_ops(inp)
